@@ -12,7 +12,7 @@ CONSTANTS
   MaxTime = 2
   Workers = {1, 2}
   MaxDemand = 2
-  MaxMn = 0
+  MaxMn = 2
 CHECK_DEADLOCK FALSE
 INVARIANTS
   C17_BacklogBound
